@@ -564,10 +564,14 @@ impl Storage {
             )
             .expect("batch put should be ok");
         let tx_hash = tx.calc_tx_hash();
-        let tx_index = u32::max_value();
-        let key = Key::TxHash(&tx_hash).into_vec();
-        let value = Value::Transaction(block_number, tx_index as TxIndex, tx);
-        batch.put_kv(key, value).expect("batch put should be ok");
+        // If the transaction has been indexed when filtering its block, keep that record: its
+        // real tx index is a part of the keys of the cells which are created by this transaction.
+        if self.get_transaction(&tx_hash).is_none() {
+            let tx_index = u32::max_value();
+            let key = Key::TxHash(&tx_hash).into_vec();
+            let value = Value::Transaction(block_number, tx_index as TxIndex, tx);
+            batch.put_kv(key, value).expect("batch put should be ok");
+        }
         batch.commit().expect("batch commit should be ok");
     }
 
